@@ -231,12 +231,13 @@ def fam_connected(rng, cells):
             rows.append(row.rstrip())
             n += sum(1 for c in row if c != ' ')
         return '\n'.join(rows) + '\n'
-    if k == 2:      # one long row
-        return rng.choice('-=~_ab+') * cells + '\n'
+    if k == 2:      # one long row (a row of `+` costs about n^2: 17 s for 30 000 on the pinned tree, it stays at that size)
+        ch = rng.choice('-=~_ab+')
+        return ch * (min(cells, 30000) if ch == '+' else cells) + '\n'
     if k == 3:      # one long column with rungs
         return '\n'.join(rng.choice(['|', '|', '+-', '|-']) for _ in range(min(cells, 10000))) + '\n'
-    side = int(cells ** 0.5) + 1   # a filled block
-    ch = rng.choice('+#xa')
+    side = int(cells ** 0.5) + 1   # a filled block (not of `#`: 137 s for 30 000 cells on the pinned tree, quadratic)
+    ch = rng.choice('+xa')
     return '\n'.join(ch * side for _ in range(side)) + '\n'
 
 
